@@ -13,6 +13,7 @@ import random
 import shutil
 
 import suites
+import hsreplay13f
 import vlib
 
 MODULE = "Confidentiality"
@@ -108,6 +109,20 @@ def run(chk):
         raise vlib.Inconclusive("vacuous: established=%d delivered=%d datagrams=%d of %d schedules" % (est, delivered, dgrams, len(cases)))
     chk.parts["schedules"] = {"cases": len(cases), "both_established": est, "datagrams_inspected": dgrams, "app_or_protected_records": apprec,
                               "payloads_delivered": delivered, "write_calls": writes, "lab_skipped": lab}
+    # (B') DTLS 1.3 handshakes whose protected flight spans several datagrams, under the loss / duplication / reordering / timer
+    # scripts of spec/Handshake13F.tla: whatever is re-sent - a whole flight or the remainder of a partially acknowledged
+    # message - leaves protected
+    for variant, lim in (("", 1500 if chk.quick else 12000), ("m400", 1500 if chk.quick else 12000)):
+        s13f = hsreplay13f.generate(chk, limit=lim, variant=variant)
+        frows, fsumm = hsreplay13f.replay(chk, binary, s13f, variant=variant)
+        nclear = 0
+        for r in frows:
+            for v in [x for x in r.get("law", []) if "C07" in x][:1]:
+                nclear += 1
+                chk.violation({"kind": "cleartext-leak", "what": v,
+                               "script13f": {"scen": hsreplay13f.scen_of(variant), "steps": s13f[r["script"]]["steps"], "qmax": hsreplay13f.QMAX, "bkcap": 3}})
+        chk.parts["fragmented13" + variant] = {"scripts": fsumm["scripts"], "cleartext": nclear, "diverged": fsumm.get("diverged", 0)}
+        del s13f
     # (C) exporter
     ecases = [{"scen": sc, "name": n} for n, sc in (layouts + extra12 + extra13)]
     ecases += [{"scen": dict(ver="12", auth="psk", suite="TLS_PSK_WITH_AES_128_GCM_SHA256", emsC=2, emsS=2, cidC=-1, cidS=-1), "name": "psk-noems"},
@@ -151,6 +166,10 @@ def replay(chk, path):
         rows = run_cases(binary, "TestVerifConfidential", [facts["case"]], "replay")
         chk.evaluated(key=facts["case"]["name"])
         if rows[0].get("violations"):
+            chk.violation(dict(facts, replayed=True), replay=path)
+    elif "script13f" in facts:
+        rows, _ = hsreplay13f.replay_one(chk, binary, facts["script13f"])
+        if any("C07" in x for r in rows for x in r.get("law", [])):
             chk.violation(dict(facts, replayed=True), replay=path)
     else:
         rows = run_cases(binary, "TestVerifExporterSecrecy", [facts["ecase"]], "replay")
